@@ -1258,6 +1258,13 @@ func (fr *Frame) checkLoopEntry(li *loopInfo, from *ssa.BasicBlock, cond string,
 	for i, cl := range fr.contract.LoopEntry[li.ordinal] {
 		env := fr.envAt(from, true, nil)
 		env.heap = heap
+		// athead(e) in an entry clause: the state in which the current iteration of the enclosing loop started
+		if outer := fr.enclosingLoop(li); outer != nil {
+			if h, ok := fr.headHeap[outer.ordinal]; ok {
+				env.lhead = h
+				env.lheadBlk = outer.head
+			}
+		}
 		fr.atEdge = true
 		t, err := env.evalBool(cl.Expr)
 		fr.atEdge = false
@@ -1272,6 +1279,20 @@ func (fr *Frame) checkLoopEntry(li *loopInfo, from *ssa.BasicBlock, cond string,
 		o := vc.oblige("inv-entry", name, cl.Tags, cond, t, fr.fn, li.head.Instrs[0].Pos(), cl.Src)
 		o.Extra = map[string]string{"contract": fmt.Sprintf("%s:%d", cl.File, cl.Line)}
 	}
+}
+
+// the innermost loop (cut by an invariant, not unrolled) whose body contains the head of li
+func (fr *Frame) enclosingLoop(li *loopInfo) *loopInfo {
+	var best *loopInfo
+	for _, l2 := range fr.loops {
+		if l2 == li || !l2.body[li.head.Index] || fr.unrolling[l2.head.Index] {
+			continue
+		}
+		if best == nil || len(l2.body) < len(best.body) {
+			best = l2
+		}
+	}
+	return best
 }
 
 // clauses of the form "loop#N backedge <expr>" are asserted at the end of every iteration, in the scope of
